@@ -36,7 +36,7 @@ GNext ==
     \/ \E f \in FeeSet :
           /\ ~Last /\ SetFee(f)
           /\ script' = Append(script, [e |-> "SetFee", f |-> f])
-    \/ \E p \in Payer \cup {"authority"}, limit \in LimitSet, lx \in {0, 1}, incOK \in BOOLEAN :
+    \/ \E p \in Payer \cup {"authority"}, limit \in LimitSet, lx \in {0, 2}, incOK \in BOOLEAN :
           \E S \in ComOrNone(current), SI \in ComOrNone(Incoming) :
           /\ ~Last /\ Request(p, limit, lx, S, incOK, SI)
           /\ script' = Append(script, [e |-> "Request", p |-> p, limit |-> limit, lx |-> lx])
@@ -53,7 +53,7 @@ GSpec == GInit /\ [][GNext]_gvars
 G1 == IF StartWithGroup THEN SeqOf(grp[1].mem) ELSE <<>>
 Emit ==
     TLCGet("level") = Depth =>
-        Serialize(<<[c |-> [period |-> par.period, create |-> par.create, fee |-> fee, startWithGroup |-> StartWithGroup, g1 |-> SeqOf(CHOOSE m \in MemberMenu : Cardinality(m) >= 2),
+        Serialize(<<[c |-> [period |-> par.period, create |-> par.create, fx |-> par.fx, fee |-> fee, startWithGroup |-> StartWithGroup, g1 |-> SeqOf(CHOOSE m \in MemberMenu : Cardinality(m) >= 2),
                            g1thr |-> 2, bal |-> [p1 |-> Bal0, p2 |-> Bal0]],
                      steps |-> script]>>,
                   IOEnv.GEN_OUT,
